@@ -50,6 +50,7 @@ static bool intact(blk_t *b) {
 
 static void drop(int slot);
 
+static long long n_self_lock;
 static void dtor_cb(void *p) {
     blk_t *b = by_ptr(p);
     n_dtor++;
@@ -60,6 +61,15 @@ static void dtor_cb(void *p) {
     if (b->freed) vf_fail("C10/dtor-after-free", "seed=%llu op=%d memory was handed back before the destructor ran", seq_seed, op_idx);
     if (!intact(b)) vf_fail("C10/dtor-on-corrupt-block", "seed=%llu op=%d block content changed before destructor", seq_seed, op_idx);
     if (m_mem_size(p) != b->size) vf_fail("C10/size-mismatch", "seed=%llu in dtor: m_mem_size=%zu requested=%zu", seq_seed, m_mem_size(p), b->size);
+    /* a destructor may hold a reference on the block it destroys while it works (the library's own lock idiom): the pair is
+     * balanced, so this is still the one and only destruction */
+    if (b->tag % 3 == 0) {
+        n_self_lock++;
+        if (m_mem_ref(p) != p) vf_fail("C10/ref-return", "m_mem_ref inside the destructor returned another pointer");
+        if (m_mem_size(p) != b->size) vf_fail("C10/size-mismatch", "seed=%llu in dtor (referenced again): m_mem_size=%zu requested=%zu", seq_seed, m_mem_size(p), b->size);
+        m_mem_unref(p);
+        if (b->freed) { vf_fail("C10/freed-inside-dtor", "seed=%llu op=%d block size=%zu was handed back to the allocator while its destructor was still running (balanced ref/unref inside it)", seq_seed, op_idx, b->size); return; }
+    }
     /* nested: release the references this block owns */
     for (int i = 0; i < b->nch; i++) {
         n_nested++;
@@ -73,11 +83,11 @@ static void dtor_cb(void *p) {
 static int cur_alloc;                  /* 0 = A, 1 = B: the allocator configured through m_set_memhook */
 static int in_alloc_of = -1, in_free_of = -1;
 static long long n_alloc_by[2], n_free_by[2], n_switches;
-static void *a_malloc(size_t n) { n_alloc_by[0]++; in_alloc_of = 0; return vf_malloc(n); }
-static void *a_calloc(size_t a, size_t b) { n_alloc_by[0]++; in_alloc_of = 0; return vf_calloc(a, b); }
+static void *a_malloc(size_t n) { void *q = vf_malloc(n); in_alloc_of = 0; if (q) n_alloc_by[0]++; return q; }
+static void *a_calloc(size_t a, size_t b) { void *q = vf_calloc(a, b); in_alloc_of = 0; if (q) n_alloc_by[0]++; return q; }
 static void a_free(void *q) { if (q) { n_free_by[0]++; in_free_of = 0; } vf_free(q); }
-static void *b_malloc(size_t n) { n_alloc_by[1]++; in_alloc_of = 1; return vf_malloc(n); }
-static void *b_calloc(size_t a, size_t b) { n_alloc_by[1]++; in_alloc_of = 1; return vf_calloc(a, b); }
+static void *b_malloc(size_t n) { void *q = vf_malloc(n); in_alloc_of = 1; if (q) n_alloc_by[1]++; return q; }
+static void *b_calloc(size_t a, size_t b) { void *q = vf_calloc(a, b); in_alloc_of = 1; if (q) n_alloc_by[1]++; return q; }
 static void b_free(void *q) { if (q) { n_free_by[1]++; in_free_of = 1; } vf_free(q); }
 static void configure_allocator(int which) {
     int r = which ? m_set_memhook(b_malloc, b_calloc, b_free) : m_set_memhook(a_malloc, a_calloc, a_free);
@@ -312,6 +322,12 @@ int main(int argc, char **argv) {
         }
     }
     if (vf_live() != 0) vf_fail("C10/leak", "sweep left %zu allocations", vf_live());
+    /* sizes no allocation can hold: header + size overflows size_t */
+    for (int k = 0; k < 64 && sweep >= 0; k++) {
+        void *p = m_mem_new(SIZE_MAX - (size_t)k, NULL);
+        if (p) { vf_fail("C10/impossible-size-accepted", "m_mem_new(SIZE_MAX - %d) returned a block (m_mem_size says %zu): the size computation wrapped around", k, m_mem_size(p)); break; }
+    }
+    vf_stat("impossible_sizes_probed", 64);
     vf_stat("sizes_swept", swept);
 
     for (int i = 0; i < nseq; i++) {
@@ -320,6 +336,7 @@ int main(int argc, char **argv) {
         run_sequence(seed * 1000003ULL + i, maxops, i < 3);
     }
     vf_stat("allocator_switches", n_switches);
+    vf_stat("destructors_locking_their_own_block", n_self_lock);
     vf_stat("blocks_from_allocator_A", n_alloc_by[0]);
     vf_stat("blocks_from_allocator_B", n_alloc_by[1]);
     if (n_alloc_by[0] != n_free_by[0] || n_alloc_by[1] != n_free_by[1])
